@@ -10,6 +10,8 @@ which is handed to the model unchanged.  Independent oracle: ipaddress.
 Listen clause (implementation only): port-less host texts through parse_ipport
 (host vs host:0) and `--listen` values through the real cmdline.main with
 sshuttle.client.main replaced by a recorder.
+Listen dispatch (implementation + model listen_dispatch): --listen texts of 1-3 elements in every family order combined with the
+other options (--disable-ipv6, --method, --dns, ...) through the real cmdline.main: per family the LAST element of that family.
 Remote clause at its point of use: the real sshuttle.ssh.connect runs up to its Popen call (recorded, nothing is started;
 `ssh`, `myssh`, `sshpass` are empty programs at the head of PATH) on generated remote texts x --ssh-cmd forms x delimiter;
 the argv and SSHPASS are compared with the model's connect_argv (Model/SshArgv.v) and, implementation-only, with the
@@ -18,6 +20,7 @@ Arguments in files (implementation-only): subnets in `-s FILE` / `-X FILE` and a
 against the same texts on the command line."""
 import io
 import ipaddress
+import itertools
 import os
 import re
 import socket
@@ -30,6 +33,8 @@ RULE = ("texts x parsers: every generated text is given to parse_subnetport, par
         "printable garbage, non-ASCII digits/letters (real code only); argv = SSHUTTLE_ARGS ++ command line over all store-type options; "
         "listen texts = every generated IPv4 spelling / bracketed IPv6 spelling / table name without a port part (host vs host:0) and "
         "--listen values of one entry or one per family, with and without ports, through the real cmdline.main up to client.main (real code only); "
+        "--listen texts of 1-3 elements in every family order x sets of other options (--disable-ipv6, --method, --dns, ...) x placement in "
+        "SSHUTTLE_ARGS / command line, and no --listen at all, through the real cmdline.main up to client.main (real and model listen_dispatch); "
         "remote texts x ssh command forms x delimiter through the real ssh.connect up to Popen (argv and SSHPASS); subnets files (-s/-X, comments, blank lines, "
         "padding, interleaved with -x) and @files (one argument per line, comments, padding, matching quotes) against the command-line spelling (real code only); "
         "a case is non-trivial when at least one of the three readers accepts it or it is a mutant of an accepted text; distinct by content hash")
@@ -1197,6 +1202,138 @@ def check_listen_main(ctx, w, hosts):
                            "got": [o, pair_str(v6), pair_str(v4)], "expected": ["OK", pair_str(want6), pair_str(want4)]})
 
 
+# other options a --listen text may be combined with (none of them takes part in the dispatch of the listen elements:
+# Model/Args.v listen_dispatch, theorem c16_listen_dispatch).  Options with process-wide side effects in cmdline.main
+# (--daemon/--syslog: stdio to syslog; --wrap/--latency-buffer-size: ssnet globals; -v: helpers.verbose) are left out.
+LISTEN_CONTEXTS = [
+    [], ["--disable-ipv6"], ["--dns"], ["--disable-ipv6", "--dns"], ["--method", "nat"], ["--method", "tproxy"],
+    ["--method", "tproxy", "--disable-ipv6"], ["--method", "nft", "--dns", "--disable-ipv6"], ["--method", "pf", "--disable-ipv6"],
+    ["--method", "auto", "--disable-ipv6", "-N"], ["-N", "-H"], ["--disable-ipv6", "--seed-hosts", "a,b"], ["--no-latency-control", "--disable-ipv6"],
+    ["--to-ns", "10.0.0.1:53", "--dns"], ["--ns-hosts", "10.0.0.1,fd00::1", "--disable-ipv6"], ["-x", "10.1.0.0/16", "--disable-ipv6"],
+    ["--python", "python3", "--tmark", "0x02"], ["--user", "nobody", "--disable-ipv6"], ["--remote-shell", "cmd"],
+    ["--disable-ipv6", "--disable-ipv6"],
+]
+
+
+def listen_slot_str(x):
+    """a listen address as client.main receives it -> the driver's spelling"""
+    if x is None:
+        return "NONE"
+    if isinstance(x, str):
+        return "AUTO" if x == "auto" else "STR:" + hx(x)
+    return "%s:%d" % (hx(x[0]), x[1])
+
+
+def run_listen_dispatch(w, val, ctxopts, place):
+    """-> (outcome, v6, v4, argv, env) of the real cmdline.main; place says which of the listen option and the other
+    options come from SSHUTTLE_ARGS"""
+    rest = ["-r", "-", "10.0.0.0/8"]
+    lst = [] if val is None else ["--listen", val]
+    env = None
+    if place == "cli":
+        argv = lst + list(ctxopts) + rest
+    elif place == "cli_rev":
+        argv = list(ctxopts) + lst + rest
+    elif place == "env_listen":
+        env, argv = lst, list(ctxopts) + rest
+    else:
+        env, argv = list(ctxopts), lst + rest
+    o, v6, v4 = impl_main_listen(w, env, argv)
+    return o, v6, v4, argv, env
+
+
+def listen_dispatch_expected(elems):
+    """spec side, from the text alone (cmdline.py:82-97 as the manual's `-l [IP:]PORT[,[IP6]:PORT]` reads): the IPv6
+    listen address is the LAST element that denotes an IPv6 address, the IPv4 one the last that does not; None when
+    the text has no element of that family; without --listen see listen_absent_expected"""
+    want6 = want4 = None
+    for fam, addr, port in elems:
+        if fam == 10:
+            want6 = (addr, port)
+        else:
+            want4 = (addr, port)
+    return want6, want4
+
+
+def check_listen_dispatch(ctx, w, hosts):
+    """the family dispatch that finishes the decomposition of a (possibly dual-stack) --listen text: 1-3 elements in
+    every family order x the other options of the command line, through the real cmdline.main up to client.main,
+    against the spec side above and the model's listen_dispatch"""
+    rng = ctx.rng
+    known = []
+    for h, exp in hosts:
+        want = listen_expected(h, exp)
+        if want is not None and not h.isdigit() and "," not in h and not h.startswith("-") and (h.startswith("[") or ":" not in h):
+            known.append((h, want))
+    v4s = [x for x in known if x[1][0] == 2]
+    v6s = [x for x in known if x[1][0] == 10]
+    fixed4 = [x for x in v4s if x[0] in ("127.0.0.1", "0.0.0.0", "localhost", "127.1", "router", "my.local", "v4only.test")]
+    fixed6 = [x for x in v6s if x[0] in ("[::1]", "[::]", "[1:2::3]", "v6only.test", "[2001:db8::ffff:1.2.3.4]")]
+    ports = [None, None, "0", "12300", "4000", "65535", "53", "1"]
+    patterns = [pt for k in (1, 2, 3) for pt in itertools.product((4, 6), repeat=k)]
+    places = ("cli", "cli_rev", "env_listen", "env_opts")
+    per = 1 if ctx.quick() else 6
+    cases = []
+
+    def element(fam, fixed):
+        if fam == 4 and rng.random() < 0.12:
+            p = rng.choice(ports[2:])
+            return (p, None), (2, "0.0.0.0", int(p))         # "just 567"
+        pool = (fixed4 if fixed else v4s) if fam == 4 else (fixed6 if fixed else v6s)
+        h, (f, addr) = rng.choice(pool)
+        p = rng.choice(ports)
+        return (h, p), (f, addr, int(p) if p is not None else 0)
+    for ci, copts in enumerate(LISTEN_CONTEXTS):
+        for pt in patterns:
+            for j in range(per):
+                els = [element(f, fixed=(j == 0 and ci % 2 == 0)) for f in pt]
+                cases.append((els, copts, places[(ci + len(cases)) % 4]))
+        cases.append((None, copts, places[ci % 2]))           # no --listen at all
+    lines, runs = [], []
+    for i, (els, copts, place) in enumerate(cases):
+        dis = "--disable-ipv6" in copts
+        if els is None:
+            val, entries = None, None
+            want6, want4 = (None if dis else "auto"), "auto"
+        else:
+            entries = [e for e, _ in els]
+            val = ",".join(h + (":" + p if p is not None else "") for h, p in entries)
+            want6, want4 = listen_dispatch_expected([d for _, d in els])
+        o, v6, v4, argv, env = run_listen_dispatch(w, val, copts, place)
+        fams = "none" if els is None else "".join(str(d[0] == 10 and 6 or 4) for _, d in els)
+        ctx.case(("listen_dispatch", val, tuple(copts), place), nontrivial=True,
+                 sample={"kind": "listen_dispatch", "argv": argv, "env": env, "client_main_v6": pair_str(v6), "client_main_v4": pair_str(v4)}
+                 if i % 97 == 0 else None)
+        ctx.count("listen_dispatch_%s_%s" % (fams, "disable_ipv6" if dis else "ipv6"))
+        got = [o, pair_str(v6), pair_str(v4)]
+        expd = ["OK", pair_str(want6), pair_str(want4)]
+        if got != expd:
+            wrong_family = o == "OK" and els is not None and (
+                (isinstance(v4, tuple) and any(d[0] == 10 and (d[1], d[2]) == v4 for _, d in els) and v4 != want4)
+                or (isinstance(v6, tuple) and any(d[0] != 10 and (d[1], d[2]) == v6 for _, d in els) and v6 != want6))
+            ctx.violation(
+                ("--listen with other options: an element of one family is handed to client.main as the listen address of the OTHER family "
+                 "(listenip_v4 must be the last IPv4 element of the text or None, listenip_v6 the last IPv6 element or None)")
+                if wrong_family else
+                ("--listen with other options: client.main does not receive, per family, the last element of that family the text gives "
+                 "(None when it gives none; without --listen: IPv4 auto, IPv6 auto unless --disable-ipv6)"),
+                {"fn": "main_listen_dispatch", "listen": val, "options": list(copts), "place": place, "argv": argv, "env": env,
+                 "got": got, "expected": expd})
+        lines.append("LISTEN %s %d %s" % ("N" if val is None else hx(val), 1 if dis else 0, table_str()))
+        runs.append((val, copts, place, o, v6, v4))
+    if ctx.driver:
+        out = ctx.run_driver(lines)
+        for (val, copts, place, o, v6, v4), m in zip(runs, out):
+            impl = "OK %s %s" % (listen_slot_str(v6), listen_slot_str(v4)) if o == "OK" else o
+            if impl != m and not (o != "OK" and m.startswith("RAISE")):
+                ctx.disagree("listen_dispatch", {"listen": val, "options": list(copts), "place": place}, impl, m, None)
+    ctx.notes.append("listen dispatch: %d command lines = {1,2,3 elements in every family order (incl. port-only elements) + no --listen} x %d "
+                     "sets of other options (--disable-ipv6, --method, --dns, -N/-H, --seed-hosts, --to-ns, --ns-hosts, -x, ...) x option "
+                     "placement (command line before/after, SSHUTTLE_ARGS) through the real cmdline.main up to client.main; oracle = per "
+                     "family the last element of that family (spec side from the text; model listen_dispatch, theorems c16_listen_dispatch / "
+                     "c16_listen_family / c16_listen_absent)" % (len(cases), len(LISTEN_CONTEXTS)))
+
+
 def correspondence(ctx):
     w = World()
     texts = gen_texts(ctx)
@@ -1366,11 +1503,13 @@ def correspondence(ctx):
     # --- arguments and subnets written in files
     check_arg_files(ctx, w, uniq)
 
-    # --- listen specifications without a port part (implementation-only: the model has no cmdline.main -> client.main step)
+    # --- listen specifications without a port part (implementation-only oracle), then the family dispatch of the whole --listen
+    #     text under the other options (spec side + the model's listen_dispatch = cmdline.main's step up to client.main)
     hosts = listen_hosts(ctx, uniq)
     for h, exp in hosts:
         check_listen_text(ctx, w, h, exp)
     check_listen_main(ctx, w, hosts)
+    check_listen_dispatch(ctx, w, hosts)
     ctx.notes.append("listen clause, implementation-only oracle: for every generated host text without a port part (IPv4 spellings, "
                      "bracketed IPv6 spellings, names of the table; bare IPv6 is accepted neither with nor without ':0') "
                      "parse_ipport(host) == parse_ipport(host + ':0') == (family, canonical address, 0), and `--listen` values "
@@ -1447,6 +1586,11 @@ def replay(ctx, rp):
         o, v6, v4, argv, env = run_listen_case(w, [(h, p) for h, p in r["entries"]], r.get("form", "long"))
         got = [o, pair_str(v6), pair_str(v4)]
         print("SSHUTTLE_ARGS=%r argv=%r -> client.main(v6, v4) = %r ; expected %r" % (env, argv, got, r.get("expected")))
+        return got != r.get("expected")
+    if fn == "main_listen_dispatch":
+        o, v6, v4, argv, env = run_listen_dispatch(w, r.get("listen"), r.get("options", []), r.get("place", "cli"))
+        got = [o, pair_str(v6), pair_str(v4)]
+        print("SSHUTTLE_ARGS=%r argv=%r -> client.main(listenip_v6, listenip_v4) = %r ; expected %r" % (env, argv, got, r.get("expected")))
         return got != r.get("expected")
     if fn == "main":
         args, (cls, ns) = impl_main_args(w, r.get("env"), list(r.get("argv", [])) + ["10.0.0.0/8"])
